@@ -183,6 +183,37 @@ CAMPAIGNS.update({
                   ex(ph(LAYOUT, pick=10), ph(LAYOUT, pick=4), ph(["subsample"], True, "r", 30))]),
 })
 
+FILEP = [["plain", "plain"], ["unicode", "adversarial"], ["numeric_ids", "scale_down"], ["long_ids", "plain"],
+         ["plain", "adversarial"], ["unicode", "scale_up"], ["case_ids", "plain"]]
+TSVP = [p for p in FILEP if p[0] != "case_ids"]          # TSV IDs: no leading/trailing blanks
+CAMPAIGNS.update({
+    "hdf5_roundtrip": model_campaign(
+        "hdf5_roundtrip", palettes=FILEP, heaps="files",
+        quick=[ex(ph(["rt_hdf5"], True, "r")),
+               ex(ph(LAYOUT + ["update_ids", "subsample"], pick=10), ph(["rt_hdf5"], True, "r", 6)),
+               ex(ph(LAYOUT, pick=5), ph(LAYOUT + ["subsample"], pick=3), ph(["rt_hdf5"], True, "r", 3))],
+        thorough=[ex(ph(LAYOUT + ["update_ids", "subsample"]), ph(["rt_hdf5"], True, "r")),
+                  ex(ph(LAYOUT), ph(LAYOUT + ["subsample"], pick=6), ph(["rt_hdf5"], True, "r", 6))]),
+    "json_roundtrip": model_campaign(
+        "json_roundtrip", palettes=FILEP, heaps="json",
+        quick=[ex(ph(["rt_json"], True, "r")),
+               ex(ph(LAYOUT + ["update_ids", "subsample"], pick=10), ph(["rt_json"], True, "r", 6))],
+        thorough=[ex(ph(LAYOUT + ["update_ids", "subsample"]), ph(["rt_json"], True, "r")),
+                  ex(ph(LAYOUT), ph(LAYOUT + ["subsample"], pick=6), ph(["rt_json"], True, "r", 6))]),
+    "tsv_roundtrip": model_campaign(
+        "tsv_roundtrip", palettes=TSVP, heaps="files",
+        quick=[ex(ph(["rt_tsv"], True, "r")),
+               ex(ph(LAYOUT + ["update_ids", "subsample"], pick=10), ph(["rt_tsv"], True, "r", 8))],
+        thorough=[ex(ph(LAYOUT + ["update_ids", "subsample"]), ph(["rt_tsv"], True, "r")),
+                  ex(ph(LAYOUT), ph(LAYOUT + ["subsample"], pick=6), ph(["rt_tsv"], True, "r", 8))]),
+    "subset_reads": model_campaign(
+        "subset_reads", palettes=TSVP, heaps="files",     # ID-list files cannot hold IDs with outer blanks
+        quick=[ex(ph(["subset_read"], True, "r", 40)),
+               ex(ph(LAYOUT, pick=6), ph(["subset_read"], True, "r", 8))],
+        thorough=[ex(ph(["subset_read"], True, "r")),
+                  ex(ph(LAYOUT), ph(["subset_read"], True, "r", 30))]),
+})
+
 CAMPAIGNS["err_profile"] = {
     "name": "err_profile", "kind": "err", "judge": ["BiomErrTrace.tla", "BiomErrTrace.cfg"],
     "cfgs": {"quick": [{"depth": 2, "nest": 3, "pick": [0, 0]},
@@ -193,6 +224,11 @@ CAMPAIGNS["err_profile"] = {
                           {"depth": 8, "nest": 3, "pick": [8, 4, 3, 3, 2, 2, 2, 2]}]}}
 
 PROPERTIES = {
+    "C01": {"level": "model_checking", "campaigns": [CAMPAIGNS["hdf5_roundtrip"]], "assumptions": []},
+    "C04": {"level": "model_checking", "campaigns": [CAMPAIGNS["hdf5_roundtrip"]], "assumptions": []},
+    "C02": {"level": "model_checking", "campaigns": [CAMPAIGNS["json_roundtrip"]], "assumptions": []},
+    "C03": {"level": "model_checking", "campaigns": [CAMPAIGNS["tsv_roundtrip"]], "assumptions": []},
+    "C14": {"level": "model_checking", "campaigns": [CAMPAIGNS["subset_reads"]], "assumptions": []},
     "C20": {"level": "model_checking", "campaigns": [CAMPAIGNS["err_profile"]],
             "assumptions": ["kinds obssize/sampsize cannot be tripped in isolation (the duplicate test is also true "
                             "for every size mismatch and is evaluated first), so their reactions are not exercised"]},
